@@ -27,7 +27,30 @@ def _blocks(s, r, x, upto):
     val = r.vals[v.keys[p]]
     e = F1.els(val)[j]
     return [("block-lengths", M.forall_pat([p], z3.Implies(z3.And(0 <= p, p < upto), F1.dim(val) == M.vsize(v.vals[v.keys[p]])), v.keys[p])),
-            ("block-elements", z3.ForAll([p, j], z3.Implies(z3.And(0 <= p, p < upto, 0 <= j, j < M.vsize(v.vals[v.keys[p]])), e == N2.el(x, D.start(M.rngk(s, p)) + j)), patterns=[e]))]
+            ("block-elements", _fa_first([p, j], z3.Implies(z3.And(0 <= p, p < upto, 0 <= j, j < M.vsize(v.vals[v.keys[p]])), e == N2.el(x, D.start(M.rngk(s, p)) + j)),
+                                    e, N2.el(x, D.start(M.rngk(s, p)) + j)))]
+
+
+def _fa_first(vs, body, *pats):
+    """ForAll with the first of `pats` that z3 accepts as its only trigger."""
+    for pt in pats:
+        try:
+            return z3.ForAll(vs, body, patterns=[pt])
+        except z3.Z3Exception:
+            continue
+    return z3.ForAll(vs, body)
+
+
+def _fa2(vs, body, *pats):
+    """ForAll with, as alternative triggers, those of `pats` that z3 accepts (an element of a dict being built is a select on a store: no valid trigger)."""
+    ok = []
+    for pt in pats:
+        try:
+            z3.ForAll(vs, body, patterns=[pt])
+            ok.append(pt)
+        except z3.Z3Exception:
+            continue
+    return z3.ForAll(vs, body, patterns=ok) if ok else z3.ForAll(vs, body)
 
 
 def _split_inv(c, k):
@@ -39,6 +62,7 @@ def _split_inv(c, k):
     p = z3.Int("p!si")
     full = N2.ln(x) == s.dimension
     return [("first-index-is-the-start-of-the-next-range", fi == z3.If(k < v.n, D.start(M.rngk(s, k)), s.dimension)),
+            ("first-index-within-the-array", z3.And(0 <= fi, fi <= s.dimension)),  # (so that the slice bounds are not clamped: index ranges lie within [0, dimension])
             ("members", z3.ForAll([a], r.has(a) == z3.And(v.has(a), v.pos[a] < k), patterns=[r.has(a)])),
             ("size", r.n == k),
             ("order", M.forall_pat([p], z3.Implies(z3.And(0 <= p, p < k), r.keys[p] == v.keys[p]), v.keys[p]))] + \
@@ -72,15 +96,17 @@ class ConvertArrayToDict(Contract):
 
     def requires(self, c):
         s = c.old.self
-        return M.wf_structure(s) + M.wf_variables(s)
+        return M.wf_structure(s)[:-1] + M.wf_variables(s)  # (nothing is required of the current value)
 
     def axioms(self, c):
-        return M.derived_all(c.old.self)
+        return D.derived_wf(c.old.self) + M.derived_ranges(c.old.self)
 
     def ensures(self, c):
         s, x, r = c.old.self, c.old.x_array, c.result
         full = N2.ln(x) == s.dimension
-        return [("one-entry-per-variable-in-the-variable-order", D.same_key_order(r, D.V(s)))] + [(l, z3.Implies(full, f)) for l, f in _blocks(s, r, x, D.V(s).n)]
+        a = z3.Const("a!cad", TStr.sort())
+        return [("one-entry-per-variable-in-the-variable-order", D.same_key_order(r, D.V(s))),
+                ("exactly-the-variables", z3.ForAll([a], r.has(a) == D.V(s).has(a), patterns=[r.has(a)]))] + [(l, z3.Implies(full, f)) for l, f in _blocks(s, r, x, D.V(s).n)]
 
 
 @register
@@ -98,10 +124,230 @@ class LosslessConversionLemmas(Contract):
         Dk, D2 = z3.Function("D", z3.IntSort(), R), z3.Function("D2", z3.IntSort(), R)
         S, E, own = (z3.Function(nm, z3.IntSort(), z3.IntSort()) for nm in ("S", "E", "own"))
         n, dim, k, j, i = z3.Ints("n dim k j i")
-        blk = z3.And(0 <= k, k < n, 0 <= j, j < E(k) - S(k))
-        a2d = lambda arr, d: z3.ForAll([k, j], z3.Implies(blk, d(k)[j] == arr[S(k) + j]), patterns=[d(k)[j]])  # noqa: E731
-        d2a = lambda d, arr: z3.ForAll([k, j], z3.Implies(blk, arr[S(k) + j] == d(k)[j]), patterns=[d(k)[j]])  # noqa: E731
-        owner = z3.ForAll([i], z3.Implies(z3.And(0 <= i, i < dim), z3.And(0 <= own(i), own(i) < n, S(own(i)) <= i, i < E(own(i)))), patterns=[own(i)])
+        inside = z3.And(0 <= k, k < n, S(k) <= i, i < E(k))
+        # (blocks written with the absolute position i = S(k) + j)
+        a2d = lambda arr, d: z3.ForAll([k, i], z3.Implies(inside, d(k)[i - S(k)] == arr[i]), patterns=[z3.MultiPattern(S(k), arr[i])])  # noqa: E731
+        d2a = lambda d, arr: z3.ForAll([k, i], z3.Implies(inside, arr[i] == d(k)[i - S(k)]), patterns=[z3.MultiPattern(S(k), arr[i])])  # noqa: E731
         o = own(i)
-        return [("array-to-dict-to-array", z3.Implies(z3.And(a2d(A, Dk), d2a(Dk, A2), owner, 0 <= i, i < dim, Dk(o)[i - S(o)] == Dk(o)[i - S(o)]), A2[i] == A[i])),
-                ("dict-to-array-to-dict", z3.Implies(z3.And(d2a(Dk, A), a2d(A, D2), blk), D2(k)[j] == Dk(k)[j]))]
+        has_owner = z3.And(0 <= o, o < n, S(o) <= i, i < E(o))  # (OwnerLemmas: every component of [0, dimension) has one)
+        return [("array-to-dict-to-array", z3.Implies(z3.And(a2d(A, Dk), d2a(Dk, A2), has_owner), A2[i] == A[i])),
+                ("dict-to-array-to-dict", z3.Implies(z3.And(d2a(Dk, A), a2d(A, D2), 0 <= k, k < n, S(k) <= i, i < E(k)), D2(k)[i - S(k)] == Dk(k)[i - S(k)]))]
+
+
+# ---------------------------------------------------------------------------- get_current_value (array form, every variable)
+from pyvc import contract as C  # noqa: E402
+from pyvc.contract import schema  # noqa: E402
+from pyvc.values import TBool  # noqa: E402
+
+CDA, GCV = M.CDA, DS + ".get_current_value"
+# schema variant "val": the link-level schema with precise current values (every stored value is an array: no None entry) and the cached flat copy
+schema(DS + "#val", {**C.class_schema(DS + "#lnk"),
+                     "_DesignSpace__current_value": FDICT,
+                     "_DesignSpace__current_value_array": F1,
+                     "_DesignSpace__norm_current_value": FDICT,
+                     "_DesignSpace__norm_current_value_array": F1})
+
+
+def CVV(s):  # noqa: N802
+    return s._DesignSpace__current_value
+
+
+def values_blocks(s, arr):
+    """Component start(name) + j of `arr` is component j of the current value of `name`."""
+    return M.blocks_at_index_ranges(s, CVV(s), F1, arr)
+
+
+def wf_values(s):
+    """Status flag and cached flat copy of the current value: the flag tells that every variable has a value (what __update_current_status computes,
+    c02_design_space.UpdateCurrentStatus, no None entry here); a non-empty cached copy is the concatenation of the values (it is emptied by
+    __clear_dependent_data whenever the values change: c02_design_space.ClearDependentData / UpdateCurrentMetadata)."""
+    v, cv = D.V(s), CVV(s)
+    a = z3.Const("a!wv", TStr.sort())
+    i = z3.Int("i!wv2")
+    cva = s._DesignSpace__current_value_array
+    m = M.sizes_match(s, cv, F1)
+    return [("flag-means-every-variable-has-a-value", z3.Implies(s._DesignSpace__has_current_value, z3.ForAll([a], cv.has(a) == v.has(a), patterns=[cv.has(a)]))),
+            ("values-of-known-variables", z3.ForAll([a], z3.Implies(cv.has(a), v.has(a)), patterns=[cv.has(a)])),
+            ("cached-copy-length", z3.Implies(z3.And(s._DesignSpace__has_current_value, N2.ln(cva) != 0, m), N2.ln(cva) == s.dimension)),
+            ("cached-copy-is-the-concatenation", z3.Implies(z3.And(s._DesignSpace__has_current_value, N2.ln(cva) != 0, m), values_blocks(s, cva)))]
+
+
+@register
+class GetCurrentValueAsAnArray(Contract):
+    """get_current_value() (every variable, as an array, not normalised): KeyError iff some variable has no current value (status flag); otherwise the
+    concatenation of the per-variable values in the variable order - with values of the sizes of their variables: a vector of `dimension` components
+    whose component start(name) + j is component j of the value of `name` - whether served from the cached copy or concatenated on the spot; only the
+    cached copy may change."""
+
+    targets = (GCV,)
+    variant = "val"
+    prop = ("C02",)
+    self_schema = DS + "#val"
+    numpy = "precise"
+    c02_lnk = True
+    returns = F1
+    modifies = ("self",)
+    callee_variants = {CDA: "f"}
+
+    @property
+    def raises(self):
+        return {"KeyError": lambda c: z3.Not(c.old.self._DesignSpace__has_current_value)}
+
+    def requires(self, c):
+        s = c.old.self
+        return M.wf_structure(s)[:-1] + M.wf_variables(s) + wf_values(s) + \
+            [("every-variable-as-a-plain-array", z3.BoolVal(c.arg("variable_names") is None and c.arg("complex_to_real") is False and c.arg("as_dict") is False
+                                                            and c.arg("normalize") is False))]
+
+    def axioms(self, c):
+        return D.derived_wf(c.old.self)
+
+    def ensures(self, c):
+        s0, s1 = c.old.self, c.new.self
+        m = M.sizes_match(s0, CVV(s0), F1)
+        fields = [f for f in C.class_schema(DS + "#val") if f != "_DesignSpace__current_value_array"]
+        return [("length-is-the-dimension", z3.Implies(m, N2.ln(c.result) == s0.dimension)),
+                ("blocks-at-index-ranges", z3.Implies(m, values_blocks(s0, c.result)))] + M.kept(s0, s1, fields) + [(f"values-invariant:{l}", f) for l, f in wf_values(s1)]
+
+
+# ---------------------------------------------------------------------------- set_current_value (array form, dictionary form)
+import sys as _sys  # noqa: E402
+
+V = _sys.modules[__name__]
+SCV, UCM, CCN = DS + ".set_current_value", DS + ".__update_current_metadata", DS + "._check_current_names"
+VAL_FIELDS = tuple(C.class_schema(DS + "#val"))
+
+
+def trunc(t):
+    return z3.ToReal(z3.If(t >= 0, z3.ToInt(t), -z3.ToInt(-t)))
+
+
+def stored(s, name, t):
+    """What is stored for a component t of the given array: itself for a float variable, its integer part for an integer variable."""
+    return z3.If(M.vtype(D.V(s).vals[name]) == M.INTEGER, trunc(t), t)
+
+
+@register
+class UpdateCurrentMetadataVal(Contract):
+    targets = (UCM,)
+    variant = "val"
+    prop = ("C02",)
+    self_schema = DS + "#val"
+    modifies = ("self",)
+    trusted = True
+    description = ("assumed, restated for the value-level schema (no None entry): VERIFIED under the structural schema in contracts/c02_design_space.py "
+                   "(UpdateCurrentMetadata / UpdateCurrentStatus / ClearDependentData): the status flag tells whether every variable has a value, and the "
+                   "cached copies of the current value are emptied when it does")
+
+    def ensures(self, c):
+        s0, s1 = c.old.self, c.new.self
+        v, cv = D.V(s0), V.CVV(s0)
+        a = z3.Const("a!ucm", TStr.sort())
+        full = z3.And(cv.n != 0, V._fa2([a], cv.has(a) == v.has(a), cv.has(a)))
+        caches = ("_DesignSpace__has_current_value", "_DesignSpace__current_value_array", "_DesignSpace__norm_current_value", "_DesignSpace__norm_current_value_array")
+        return [("flag", s1._DesignSpace__has_current_value == full),
+                ("cached-copies-emptied-when-complete", z3.Implies(full, z3.And(N2.ln(s1._DesignSpace__current_value_array) == 0, N2.ln(s1._DesignSpace__norm_current_value_array) == 0,
+                                                                               s1._DesignSpace__norm_current_value.n == 0))),
+                ("cached-copies-kept-otherwise", z3.Implies(z3.Not(full), z3.And(*[f for _, f in M.kept(s0, s1, caches[1:])])))] + M.kept(s0, s1, [f for f in VAL_FIELDS if f not in caches])
+
+
+@register
+class CheckCurrentNamesVal(Contract):
+    targets = (CCN,)
+    variant = "val"
+    prop = ("C02",)
+    self_schema = DS + "#val"
+    raises = {"ValueError": None}
+    trusted = True
+    description = ("assumed: _check_current_names raises ValueError (names of the current value differ from the variables, or the membership check of "
+                   "__check_membership - verified at the link level - fails) or returns, and changes nothing")
+
+
+def _cast_inv(c, k):
+    s = c.old.self
+    pre = c.pre_locals["self"]
+    cv0, cv = V.CVV(pre), V.CVV(c.new.self)
+    p, j = z3.Int("p!ci"), z3.Int("j!ci")
+    val0, val = cv0.vals[cv0.keys[p]], cv.vals[cv0.keys[p]]
+    e = F1.els(val)[j]
+    e0 = F1.els(val0)[j]
+    return [("lengths-kept", M.forall_pat([p], z3.Implies(z3.And(0 <= p, p < cv0.n), F1.dim(val) == F1.dim(val0)), cv0.keys[p])),
+            ("visited-values-are-cast", V._fa2([p, j], z3.Implies(z3.And(0 <= p, p < k, 0 <= j, j < F1.dim(val0)), e == stored(s, cv0.keys[p], e0)), e, e0)),
+            ("others-untouched", V._fa2([p, j], z3.Implies(z3.And(k <= p, p < cv0.n, 0 <= j, j < F1.dim(val0)), e == e0), e, e0))]
+
+
+@register
+class SetCurrentValueFromAnArray(Contract):
+    """set_current_value(array): ValueError unless the array has `dimension` components (or the membership check fails); otherwise every variable, in the
+    variable order, gets its block x[start(name) : start(name) + size(name)] (integer part for an integer variable: astype(int64)), the status flag
+    is refreshed and the cached copies of the current value are dropped; nothing else changes."""
+
+    targets = (SCV,)
+    variant = "val"
+    prop = ("C02",)
+    self_schema = DS + "#val"
+    numpy = "precise"
+    c02_lnk = True
+    c02_int_as_real = True
+    params = {"value": F1}
+    modifies = ("self",)
+    raises = {"ValueError": None}
+    raises_exact = False
+    callee_variants = {CAD: "lnk", UCM: "val", CCN: "val"}
+    loops = {0: LoopSpec(anchor="self.__current_value.items()", modifies=("self._DesignSpace__current_value#vals",), inv=_cast_inv,
+                         local_types={"name": TStr, "value": F1, "variable_type": TStr})}
+
+    def requires(self, c):
+        s = c.old.self
+        return M.wf_structure(s)[:-1] + M.wf_variables(s)
+
+    def axioms(self, c):
+        return M.derived_all(c.old.self)
+
+    def ensures(self, c):
+        s0, s1, x = c.old.self, c.new.self, c.old.value
+        v, cv = D.V(s0), V.CVV(s1)
+        p, j = z3.Int("p!scv"), z3.Int("j!scv")
+        val = cv.vals[v.keys[p]]
+        e = F1.els(val)[j]
+        src = N2.el(x, D.start(M.rngk(s0, p)) + j)
+        kept_fields = [f for f in VAL_FIELDS if f not in ("_DesignSpace__current_value", "_DesignSpace__has_current_value", "_DesignSpace__current_value_array",
+                                                         "_DesignSpace__norm_current_value", "_DesignSpace__norm_current_value_array")]
+        return [("array-of-dimension-components", N2.ln(x) == s0.dimension),
+                ("one-value-per-variable-in-the-variable-order", D.same_key_order(cv, v)),
+                ("value-lengths", M.forall_pat([p], z3.Implies(z3.And(0 <= p, p < v.n), F1.dim(val) == M.vsize(v.vals[v.keys[p]])), v.keys[p])),
+                ("values-are-the-blocks-of-the-array", V._fa2([p, j], z3.Implies(z3.And(0 <= p, p < v.n, 0 <= j, j < M.vsize(v.vals[v.keys[p]])), e == stored(s0, v.keys[p], src)), e, src)),
+                ("status-refreshed", s1._DesignSpace__has_current_value == (v.n != 0)),
+                ("cached-copy-dropped", z3.Implies(v.n != 0, N2.ln(s1._DesignSpace__current_value_array) == 0))] + M.kept(s0, s1, kept_fields)
+
+
+FVALS = TDict(TStr, F1, ordered=True)
+
+
+@register
+class SetCurrentValueFromADict(SetCurrentValueFromAnArray):
+    """set_current_value(dict of arrays): the entries whose key is a variable are stored (integer part for an integer variable), the others are ignored;
+    the status flag tells whether every variable has a value; the cached copies are dropped when it does; ValueError as coded by the membership check."""
+
+    variant = "val-dict"
+    params = {"value": FVALS}
+
+    def ensures(self, c):
+        s0, s1, d = c.old.self, c.new.self, c.old.value
+        v, cv = D.V(s0), V.CVV(s1)
+        a = z3.Const("a!scd", TStr.sort())
+        j = z3.Int("j!scd")
+        e = F1.els(cv.vals[a])[j]
+        src = F1.els(d.vals[a])[j]
+        complete = z3.And(cv.n != 0, V._fa2([a], cv.has(a) == v.has(a), cv.has(a)))
+        kept_fields = [f for f in VAL_FIELDS if f not in ("_DesignSpace__current_value", "_DesignSpace__has_current_value", "_DesignSpace__current_value_array",
+                                                         "_DesignSpace__norm_current_value", "_DesignSpace__norm_current_value_array")]
+        return [("only-given-values-of-variables", V._fa2([a], z3.Implies(cv.has(a), z3.And(d.has(a), v.has(a))), cv.has(a))),
+                # (d.pos[a] >= 0 holds for every key of d: it names the position at which the comprehension meets the key)
+                ("every-given-value-of-a-variable", z3.ForAll([a], z3.Implies(z3.And(d.has(a), d.pos[a] >= 0, v.has(a)), cv.has(a)), patterns=[d.pos[a]])),
+                ("value-lengths", V._fa2([a], z3.Implies(z3.And(cv.has(a), cv.pos[a] >= 0, d.has(a), d.pos[a] >= 0), F1.dim(cv.vals[a]) == F1.dim(d.vals[a])), cv.pos[a])),
+                # (a stored key is a key of d - first clause -; the positions of a in both dictionaries are named so that no prover has to guess them)
+                ("values-are-the-given-values", V._fa2([a, j], z3.Implies(z3.And(cv.has(a), cv.pos[a] >= 0, d.has(a), d.pos[a] >= 0, 0 <= j, j < F1.dim(d.vals[a])), e == stored(s0, a, src)),
+                                                       z3.MultiPattern(cv.pos[a], src))),
+                ("status-refreshed", s1._DesignSpace__has_current_value == complete),
+                ("cached-copy-dropped-when-complete", z3.Implies(complete, N2.ln(s1._DesignSpace__current_value_array) == 0))] + M.kept(s0, s1, kept_fields)
